@@ -248,3 +248,108 @@ impl Block for N12 {
         Ok(BlockRet::Again)
     }
 }
+
+// ---------------------------------------------------------------------------------------
+// Delay with set_delay(): a composite that makes the retune points a function of the
+// stream, not of the chunking.  src -> (s1) -> Delay -> (s2) -> dst.
+//
+//  * `early` delays are applied with set_delay() right after construction, before the
+//    block has written anything: the block must then behave like Delay::new(last).
+//  * `mid = (at, d)` is applied once the inner Delay has taken exactly `at` input samples
+//    and everything the delay line owes for them has come out (so no zeros or skips are
+//    pending): raising the delay then inserts d - cur zeros, lowering it drops the next
+//    cur - d input samples (and their tags).
+#[derive(rustradio::rustradio_macros::Block)]
+#[rustradio(noeof)]
+pub struct DelayRetune {
+    #[rustradio(in)]
+    src: ReadStream<u8>,
+    #[rustradio(out)]
+    dst: WriteStream<u8>,
+    inner: rustradio::delay::Delay<u8>,
+    s1w: WriteStream<u8>,
+    s2r: ReadStream<u8>,
+    cap1: usize,
+    /// delay in force before the mid retune
+    d_eff: usize,
+    mid: Option<(usize, usize)>,
+    retuned: bool,
+    forwarded: usize,
+    moved: usize,
+}
+impl DelayRetune {
+    pub fn new(src: ReadStream<u8>, d0: usize, early: &[usize], mid: Option<(usize, usize)>) -> (Self, ReadStream<u8>) {
+        let (s1w, s1r) = rustradio::stream::new_stream::<u8>();
+        let (mut inner, s2r) = rustradio::delay::Delay::new(s1r, d0);
+        let mut d_eff = d0;
+        for d in early {
+            inner.set_delay(*d);
+            d_eff = *d;
+        }
+        let (dst, out) = rustradio::stream::new_stream::<u8>();
+        let cap1 = s1w.free();
+        (Self { src, dst, inner, s1w, s2r, cap1, d_eff, mid, retuned: false, forwarded: 0, moved: 0 }, out)
+    }
+}
+impl rustradio::block::BlockEOF for DelayRetune {
+    fn eof(&mut self) -> bool {
+        self.src.eof() && self.s1w.free() == self.cap1 && self.s2r.verif_available() == 0
+    }
+}
+impl Block for DelayRetune {
+    fn work(&mut self) -> Result<BlockRet> {
+        let mut progress = false;
+        // inner output -> our output
+        {
+            let (i, tags) = self.s2r.read_buf()?;
+            let mut o = self.dst.write_buf()?;
+            let n = i.len().min(o.len());
+            if n > 0 {
+                o.fill_from_slice(&i.slice()[..n]);
+                o.produce(n, &tags);
+                i.consume(n);
+                self.moved += n;
+                progress = true;
+            }
+        }
+        // retune at the agreed stream position
+        if let (false, Some((at, d))) = (self.retuned, self.mid) {
+            if self.forwarded == at && self.s1w.free() == self.cap1 && self.moved + self.s2r.verif_available() == self.d_eff + at {
+                self.inner.set_delay(d);
+                self.retuned = true;
+                progress = true;
+            }
+        }
+        // our input -> inner input
+        let limit = match (self.retuned, self.mid) {
+            (false, Some((at, _))) => at - self.forwarded,
+            _ => usize::MAX,
+        };
+        let src_empty;
+        {
+            let (i, tags) = self.src.read_buf()?;
+            src_empty = i.is_empty();
+            let mut o = self.s1w.write_buf()?;
+            let n = i.len().min(o.len()).min(limit);
+            if n > 0 {
+                o.fill_from_slice(&i.slice()[..n]);
+                o.produce(n, &tags);
+                i.consume(n);
+                self.forwarded += n;
+                progress = true;
+            }
+        }
+        let before = (self.s1w.free(), self.s2r.verif_available());
+        self.inner.work()?;
+        if (self.s1w.free(), self.s2r.verif_available()) != before {
+            progress = true;
+        }
+        Ok(if progress {
+            BlockRet::Again
+        } else if src_empty {
+            BlockRet::WaitForStream(&self.src, 1)
+        } else {
+            BlockRet::WaitForStream(&self.dst, 1)
+        })
+    }
+}
